@@ -578,8 +578,8 @@ def workerNack (batch : Batch) (taskID : Nat) : M Unit := do
     if n > ob.pos.length then throw (.panic "slice bounds out of range: positions[:n]")
     if !validateAckPositions (ob.pos.take n) then
       match err with
-      -- `cerrors.Errorf("%w (while handling: %w)", posErr, err)`: two %w wrap nothing
-      | some _ => throw (.err (fatalE plainErr))
+      -- `cerrors.Join(posErr, cerrors.Errorf("while handling: %w", err))`, marked fatal
+      | some e => throw (.err (fatalE (joinErr (coded "pipeline.empty_source_position") (wrap e))))
       | none => throw (.err (fatalE (coded "pipeline.empty_source_position")))
     emit (.sack (ob.pos.take n))
     if n > batch.recs.length then throw (.panic "slice bounds out of range: records[:n]")
